@@ -352,7 +352,12 @@ class SymNd:
             if isinstance(kk, slice):
                 start, stop, step, count = ops.slice_bounds(it, kk, dim)
                 new_shape.append(mk_int(count))
-                maps.append(("slice", start, step, out_axis))
+                if z3.is_int_value(step):
+                    maps.append(("slice", start, step, out_axis))
+                else:
+                    if it.truth(mk_bool(step < 0)):
+                        raise Unsupported("numpy slice with symbolic negative step")
+                    maps.append(("map", ops.index_map(it, start, stop, step, count, as_int_term(dim)), None, out_axis))
                 out_axis += 1
             elif isinstance(kk, Sym) and kk.pyt in (int, bool) or is_concrete_int(kk):
                 k = as_int_term(kk)
@@ -373,6 +378,8 @@ class SymNd:
             for m in maps:
                 if m[0] == "int":
                     src.append(m[1])
+                elif m[0] == "map":
+                    src.append(m[1](as_int_term(idx[m[3]])))
                 else:
                     src.append(m[1] + as_int_term(idx[m[3]]) * m[2])
             return self.elem(tuple(src))
